@@ -338,4 +338,56 @@ theorem kernName_ne_locations (pr : Rat → List Nat) (l : Loc) (p : l.printable
     rw [render_printable _ (p e (by simp))] at h
     simp [lit] at h
 
+/-! ### a printer with the assumed properties exists (non-vacuity only; not the real printer) -/
+
+def prWitness (x : Rat) : List Nat :=
+  (if x < 0 then [0x2D] else []) ++ decDigits x.num.natAbs ++ 0x2F :: decDigits x.den
+
+theorem prWitness_noUnderscore : PrintNoUnderscore prWitness := by
+  intro x h
+  simp only [prWitness, List.mem_append, List.mem_cons] at h
+  rcases h with (h | h) | h | h
+  · split at h <;> simp at h
+  · have := decDigits_digits _ _ h; omega
+  · omega
+  · have := decDigits_digits _ _ h; omega
+
+theorem prWitness_injective : PrintInjective prWitness := by
+  intro x y h
+  unfold prWitness at h
+  have hs : (x < 0) ↔ (y < 0) := by
+    cases hq : decDigits x.num.natAbs with
+    | nil => exact absurd hq (decDigits_ne_nil _)
+    | cons a as =>
+      cases hq' : decDigits y.num.natAbs with
+      | nil => exact absurd hq' (decDigits_ne_nil _)
+      | cons b bs =>
+        have ha := decDigits_digits _ a (by rw [hq]; simp)
+        have hb := decDigits_digits _ b (by rw [hq']; simp)
+        rw [hq, hq'] at h
+        by_cases hx : x < 0 <;> by_cases hy : y < 0 <;> simp [hx, hy] at h ⊢ <;> omega
+  have h' : decDigits x.num.natAbs ++ 0x2F :: decDigits x.den = decDigits y.num.natAbs ++ 0x2F :: decDigits y.den := by
+    by_cases hx : x < 0
+    · have hy : y < 0 := hs.mp hx
+      simpa [hx, hy] using h
+    · have hy : ¬ y < 0 := fun hh => hx (hs.mpr hh)
+      simpa [hx, hy] using h
+  have nd : ∀ m, (0x2F : Nat) ∉ decDigits m := by
+    intro m hm
+    have := decDigits_digits m _ hm
+    omega
+  obtain ⟨h1, h2⟩ := split_at_sep _ _ _ _ (nd _) (nd _) h'
+  have hn := decDigits_inj _ _ h1
+  have hd := decDigits_inj _ _ h2
+  have key : ∀ q : Rat, q.num < 0 ↔ q < 0 := by
+    intro q
+    rw [← Int.not_le, Rat.num_nonneg, Rat.not_le]
+  have hsn : x.num < 0 ↔ y.num < 0 := by rw [key, key]; exact hs
+  apply Rat.ext
+  · by_cases hx : x.num < 0
+    · have := hsn.mp hx; omega
+    · have : ¬ y.num < 0 := fun hh => hx (hsn.mpr hh)
+      omega
+  · exact hd
+
 end Fontc.Paths
